@@ -16,7 +16,7 @@ SetToSeq2(S) == LET a == CHOOSE x \in S : \A y \in S : x <= y IN IF Cardinality(
 TimeCase(form, text, hs, m, s, prec) ==
   LET hseq == SetToSeq2(hs) IN
   [prop |-> "C07", culture |-> "en-us", ref |-> RefStr(RefDay, 12, 0, 0), text |-> text, s |-> 0, e |-> Len(text) - 1,
-   type |-> "time", ordered |-> FALSE, form |-> form, hour |-> hseq[1],
+   type |-> "time", ordered |-> FALSE, form |-> form, hour |-> hseq[1], opt |-> 0,
    vals |-> [k \in 1..Len(hseq) |->
                V1((CASE prec = 1 -> "T" \o Pad2(hseq[k]) [] prec = 2 -> T2(hseq[k], m) [] prec = 3 -> T3(hseq[k], m, s)), "time", TimeStr(hseq[k], m, s))]]
 
@@ -42,5 +42,7 @@ Attach(tc, de) ==
              !.vals = [k \in 1..Len(tc.vals) |-> V1(OrdStr(de.day) \o tc.vals[k][1], "datetime", OrdStr(de.day) \o " " \o tc.vals[k][3])]]
 Attached == { Attach(tc, de) : tc \in { x \in F24 \cup F12 \cup F12h \cup F12n : x.vals[1][3] \in {"00:30:00", "09:05:00", "12:00:00", "12:30:00", "13:45:00", "23:59:00", "03:30:00", "15:00:00", "00:00:00", "01:00:00"} }, de \in DateExprs }
 
-Cases == F24 \cup F24s \cup F12 \cup F12h \cup F12n \cup Attached
+(* calendar mode (DateTimeOptions 4) filters some expressions on purpose, never a clock time with minutes *)
+Calendar == { [c EXCEPT !.opt = 4, !.form = c.form \o " (calendar mode)"] : c \in F24 \cup F12 \cup F12n \cup { a \in Attached : a.hour \in {1, 13} } }
+Cases == F24 \cup F24s \cup F12 \cup F12h \cup F12n \cup Attached \cup Calendar
 =============================================================================
